@@ -113,7 +113,7 @@ func ruleC02Select(p *Prog, r *Result) {
 					if ok, why := check(info.Init); !ok {
 						return false, why
 					}
-				} else if info.Init == nil || !(info.Init.Op == "lit" && len(info.Init.Args) == 0) && !info.Init.IsNil() {
+				} else if info.Init == nil || !info.Init.IsEmptyList() && !info.Init.IsNil() {
 					return false, "candidates do not start empty"
 				}
 				for _, it := range pr.paths {
